@@ -185,19 +185,28 @@ func ZZC02Primitives() {
 // ZZC02Programs: accepted programs exercising untyped empty literals, any
 // wrapping, type assertions and variadics end only in a documented way, and
 // typeof reports the static type.
-func ZZC02Programs() {
-	progs := []struct{ src, out string }{
-		{"a:[]any\na = [1 \"s\" [] {}]\nprint (typeof a) (typeof a[2]) (typeof a[3])\n", "print:[]any []any {}any\n"},
-		{"func f a:any...\n    print (len a) (typeof a)\nend\nf\nf 1 [] {}\n", "print:0 []any\n|print:3 []any\n"},
-		{"m:{}[]any\nm.k = []\nm.j = [1 []]\nprint (typeof m.k) (typeof m.j[1]) m\n", "print:[]any []any {k:[] j:[1 []]}\n"},
-		{"v:any\nprint (typeof v) v\nv = []\nprint (typeof v)\nv = {a:[]}\nprint (typeof v)\n", "print:bool false\n|print:[]any\n|print:{}[]any\n"},
-		{"x := [] + []\ny := [[]] + [[1]]\nprint (typeof x) x y\n", "print:[]any [] [[] [1]]\n"},
-		{"a:[]any\na = [1] + [2]\nb := ([[]]) + [[2] []]\nprint a b\n", "print:[1 2] [[] [2] []]\n"},
-		{"func g:[]num\n    return []\nend\nr := g\nr = r + [1]\nprint r (typeof r)\n", "print:[1] []num\n"},
-		{"a := [1 2 3]\nfor e := range a[1:]\n    print (typeof e) e\nend\n", "print:num 2\n|print:num 3\n"},
-		{"v:any\nv = [1]\nw := v.([]num)\nw[0] = 2\nprint v w (typeof v)\n", "print:[2] [2] []num\n"},
+var zzC02Progs = []struct{ src, out string }{
+	{"a:[]any\na = [1 \"s\" [] {}]\nprint (typeof a) (typeof a[2]) (typeof a[3])\n", "print:[]any []any {}any\n"},
+	{"func f a:any...\n    print (len a) (typeof a)\nend\nf\nf 1 [] {}\n", "print:0 []any\n|print:3 []any\n"},
+	{"m:{}[]any\nm.k = []\nm.j = [1 []]\nprint (typeof m.k) (typeof m.j[1]) m\n", "print:[]any []any {k:[] j:[1 []]}\n"},
+	{"v:any\nprint (typeof v) v\nv = []\nprint (typeof v)\nv = {a:[]}\nprint (typeof v)\n", "print:bool false\n|print:[]any\n|print:{}[]any\n"},
+	{"x := [] + []\ny := [[]] + [[1]]\nprint (typeof x) x y\n", "print:[]any [] [[] [1]]\n"},
+	{"a:[]any\na = [1] + [2]\nb := ([[]]) + [[2] []]\nprint a b\n", "print:[1 2] [[] [2] []]\n"},
+	{"func g:[]num\n    return []\nend\nr := g\nr = r + [1]\nprint r (typeof r)\n", "print:[1] []num\n"},
+	{"a := [1 2 3]\nfor e := range a[1:]\n    print (typeof e) e\nend\n", "print:num 2\n|print:num 3\n"},
+	{"v:any\nv = [1]\nw := v.([]num)\nw[0] = 2\nprint v w (typeof v)\n", "print:[2] [2] []num\n"},
+}
+
+func zzC02ProgramTexts() []string {
+	var out []string
+	for _, c := range zzC02Progs {
+		out = append(out, c.src)
 	}
-	c := progs[zzChoice("prog", len(progs))]
+	return out
+}
+
+func ZZC02Programs() {
+	c := zzC02Progs[zzChoice("prog", len(zzC02Progs))]
 	p := &zzPlat{}
 	ev := NewEvaluator(p)
 	err := ev.Run(c.src)
